@@ -951,7 +951,8 @@ fn run_search(w: &World, st: &[String]) -> String {
                 }
                 _ => {
                     if tr {
-                        b = b.transpose();
+                        // transpose() selects the reversed graph; it is a setter, not a toggle: calling it again changes nothing
+                        b = b.transpose().transpose();
                     }
                     let mut b = with_method!(b, meth, &mut ff, &mut fe);
                     if let Some(ref t) = target {
